@@ -1,5 +1,8 @@
 // search.go: failing-input search legs of hx_c11 (active only with -search).
 //
+// The legs that run in the NORMAL tiers (towers of height 10..12, machine-word arguments, member types, held listings) are
+// in legs3.go; the oracle-only ones share this file's engine (zeng).
+//
 // The normal tiers keep at most 40 members and observe after every call. The legs:
 //
 //	scale      sets of 200 000 (one variant per seed: 2^18+10) members inserted in ascending / descending / random score
@@ -89,6 +92,10 @@ type zeng struct {
 	dead   bool
 	maxLen int
 	obs    int
+	// legs3.go: listings kept for the held-output recheck
+	hold bool
+	held []heldList
+	muts int
 }
 
 func newZeng(kind string, seed uint64) *zeng {
@@ -105,8 +112,10 @@ func newZeng(kind string, seed uint64) *zeng {
 		e.mk = func(x int64) collections.Comparable { return xmem(x) }
 		e.un = func(c collections.Comparable) (int64, bool) { m, ok := c.(xmem); return int64(m), ok }
 	default:
-		e.mk = func(x int64) collections.Comparable { return mem(int(x)) }
-		e.un = func(c collections.Comparable) (int64, bool) { m, ok := c.(mem); return int64(m), ok }
+		if !memberKind(e, kind) { // legs3.go
+			e.mk = func(x int64) collections.Comparable { return mem(int(x)) }
+			e.un = func(c collections.Comparable) (int64, bool) { m, ok := c.(mem); return int64(m), ok }
+		}
 	}
 	return e
 }
@@ -159,6 +168,7 @@ func (e *zeng) add(m, s int64) {
 		e.ref[m] = s
 		e.dirty = true
 	}
+	e.mutated()
 	if !got {
 		e.fail("result:zadd", "Add(%d,%d) returned false", m, s)
 	}
@@ -174,6 +184,7 @@ func (e *zeng) rem(m int64) {
 		delete(e.ref, m)
 		e.dirty = true
 	}
+	e.mutated()
 	if got != ok {
 		e.fail("result:zrem", "Remove(%d) returned %v, the reference says %v", m, got, ok)
 	}
@@ -194,6 +205,7 @@ func (e *zeng) rrs(a, b int64) {
 	if n > 0 {
 		e.dirty = true
 	}
+	e.mutated()
 	if got != n {
 		e.fail("result:zrrs", "RemoveRangeByScore(%d,%d) returned %d, the sorted reference holds %d members in that range", a, b, got, n)
 	}
@@ -234,6 +246,7 @@ func (e *zeng) rrr(a, b int) {
 	if n > 0 {
 		e.dirty = true
 	}
+	e.mutated()
 	if got != n {
 		e.fail("result:zrrr", "RemoveRangeByRank(%d,%d) on %d members returned %d, the reference removes %d", a, b, len(rk), got, n)
 	}
@@ -257,6 +270,7 @@ func (e *zeng) sameList(name string, got []collections.Comparable, want []p64, r
 			return
 		}
 	}
+	e.keep(descr, got)
 }
 
 func (e *zeng) qRange(a, b int, rev bool) {
@@ -483,7 +497,7 @@ func (e *zeng) report(r *hxlib.Run, c scase) bool {
 	}
 	c.FailAt = e.n
 	f := e.fails[0]
-	r.Fail(f.key, fmt.Sprintf("search leg %s/%s (n=%d seed=%d): %s", c.Leg, c.Variant, c.N, c.Seed, f.what), c)
+	r.Fail(f.key, fmt.Sprintf("leg %s/%s (n=%d seed=%d): %s", c.Leg, c.Variant, c.N, c.Seed, f.what), c)
 	return true
 }
 
@@ -700,6 +714,10 @@ func runSearchCase(c scase) *zeng {
 		return runPeriod(c)
 	case "magnitude":
 		return runMagnitude(c)
+	case "members": // legs3.go (normal tiers)
+		return runMembers(c)
+	case "wordranks": // legs3.go (normal tiers)
+		return runWordRanks(c)
 	}
 	e := newZeng("", 0)
 	e.fail("harness", "unknown search leg %q", c.Leg)
